@@ -157,6 +157,29 @@ def f_parse_char(v):
     return v
 
 
+RFC3339 = re.compile(r"^(\d{4})-(\d\d)-(\d\d)T(\d\d):(\d\d):(\d\d)(\.\d{1,9})?(Z|[+-]\d\d:\d\d)$", re.ASCII)
+
+
+def f_parse_epoch(v):
+    """seconds since 1970-01-01T00:00:00Z of an RFC 3339 timestamp: the UTC offset written in the text counts"""
+    import datetime
+    if not isinstance(v, str):
+        raise Unspec()
+    m = RFC3339.match(v)
+    if not m:
+        if re.match(r"^[A-Za-z -]*$", v):
+            raise GuardError()          # no digits at all: certainly no timestamp
+        raise Unspec()
+    y, mo, d, h, mi, sec = (int(m.group(i)) for i in range(1, 7))
+    try:
+        base = datetime.datetime(y, mo, d, h, mi, sec, tzinfo=datetime.timezone.utc)
+    except ValueError:
+        raise Unspec()
+    off = m.group(8)
+    delta = 0 if off == "Z" else (1 if off[0] == "+" else -1) * (int(off[1:3]) * 3600 + int(off[4:6]) * 60)
+    return int(base.timestamp()) - delta
+
+
 def f_json_parse(v):
     if not isinstance(v, str):
         return SKIP
@@ -183,7 +206,7 @@ def expected(fname, args):
             # one-level flattening), so a parsed top-level JSON array shows up as its members
             out.extend(r if isinstance(r, list) else [r])
         return out
-    if fname in ("to_upper", "to_lower", "url_decode", "parse_int", "parse_float", "parse_boolean", "parse_string", "parse_char"):
+    if fname in ("to_upper", "to_lower", "url_decode", "parse_int", "parse_float", "parse_boolean", "parse_string", "parse_char", "parse_epoch"):
         return ref_elementwise(globals()["f_" + fname], vals)
     if fname == "substring":
         i, j = args[1][0], args[2][0]
@@ -466,6 +489,12 @@ def shard(ctx):
             for fn in ("parse_char", "parse_int", "parse_string", "parse_float", "parse_boolean"):
                 judge(ctx, fn, "literal", rule_text([], "%s(%d)" % (fn, iv)), [[iv]], "integer")
                 judge(ctx, fn, "variable", rule_text([("v", "%d" % iv)], "%s(%%v)" % fn), [[iv]], "integer")
+        # timestamps, one by one: the same instant in several spellings, offsets east and west of UTC, fractions, the epoch itself
+        for ts in ["2024-08-21T00:00:00Z", "2024-08-21T02:00:00+02:00", "2024-08-20T19:00:00-05:00", "2024-08-21T05:30:00+05:30", "2024-08-21T00:00:00+00:00",
+                   "1970-01-01T00:00:00Z", "1970-01-01T01:00:00+01:00", "1969-12-31T23:59:59Z", "2000-02-29T12:34:56Z", "2038-01-19T03:14:08Z", "2024-08-21T00:00:00.500Z",
+                   "2024-08-21T00:30:00Z", "2024-08-21T01:00:00+02:00", "2024-12-31T23:59:59-12:00", "2024-01-01T00:00:00+14:00", "not-a-date"]:
+            judge(ctx, "parse_epoch", "literal", rule_text([], "parse_epoch(%s)" % gen.glit(ts)), [[ts]], "timestamp")
+            judge(ctx, "parse_epoch", "variable", rule_text([("v", gen.glit(ts))], "parse_epoch(%v)"), [[ts]], "timestamp")
     # ---- random strings through the unary string functions
     n = 60 if ctx.quick else 40000
     alphabet = "abXYeE z01925/%+-_.é"
